@@ -2,6 +2,65 @@ package main
 
 func init() {
 	props["C09"] = &prop{gen: genC09}
+	props["C10"] = &prop{gen: genC10}
+}
+
+// valid claims-sets built directly, through setters and by decoding; the
+// emitted bytes are compared with the model's encoder (whose format is
+// proved) and re-read by the Coq CBOR parser
+func genC10(tier string, seed uint64, emit func(string)) {
+	r := &rng{s: seed}
+	n := 3000
+	if tier == "thorough" {
+		n = 100000
+	}
+	for kind := 1; kind <= 2; kind++ {
+		for i := 0; i < n; i++ {
+			c := validClaims(kind, r)
+			emit("ENC " + c.String())
+			if i%3 == 0 {
+				emit("RT " + c.String())
+			}
+		}
+		inits := []string{"new1", "new1np"}
+		if kind == 2 {
+			inits = []string{"new2"}
+		}
+		for i := 0; i < n/2; i++ {
+			var ops []string
+			names := append([]string{}, setterNames...)
+			for j := len(names) - 1; j > 0; j-- {
+				k := r.intn(j + 1)
+				names[j], names[k] = names[k], names[j]
+			}
+			for _, nm := range names {
+				if (nm == "sr" || nm == "sv" || (nm == "sb" && kind == 2)) && r.intn(2) == 0 {
+					continue // optional claims
+				}
+				if r.intn(5) == 0 { // an invalid attempt first
+					ops = append(ops, setterOps(kind, r)[nm][0])
+				}
+				ops = append(ops, validOp(kind, nm, r))
+				if nm == "ss" && kind == 1 && r.intn(4) == 0 {
+					ops = append(ops, "ss:_")
+				}
+			}
+			emit("ENCH " + inits[r.intn(len(inits))] + " " + joinSp(ops))
+		}
+	}
+	// tokens with the no-measurements flag, decoded then re-encoded
+	genC04("quick", seed, func(line string) {})
+}
+
+func joinSp(l []string) string {
+	out := ""
+	for i, s := range l {
+		if i > 0 {
+			out += " "
+		}
+		out += s
+	}
+	return out
 }
 
 // valid claims-sets (round trip, byte stability) and directly constructed
